@@ -4,6 +4,7 @@ import (
 	"encoding/json"
 	"flag"
 	"fmt"
+	"io"
 	"strings"
 	"time"
 
@@ -111,6 +112,34 @@ func otherOperations(net *network.Network, round int) {
 		for _, b := range nodes {
 			count := 0
 			net.IsRecurrent(a, b, &count, len(nodes)*len(nodes)+5)
+		}
+	}
+	// the path printer walks the same nodes with the same traversal marks (only on networks without cycles: it has no
+	// protection of its own against them and is not part of C14)
+	if round%3 != 1 {
+		// (an explicit cycle search over all links: the printer would recurse without end on a cycle)
+		acyclic := true
+		state := map[*network.NNode]int{}
+		var visit func(n *network.NNode)
+		visit = func(n *network.NNode) {
+			state[n] = 1
+			for _, l := range n.Incoming {
+				switch state[l.InNode] {
+				case 1:
+					acyclic = false
+				case 0:
+					visit(l.InNode)
+				}
+			}
+			state[n] = 2
+		}
+		for _, a := range nodes {
+			if state[a] == 0 {
+				visit(a)
+			}
+		}
+		if acyclic {
+			_ = guard(func() { _ = network.PrintAllActivationDepthPaths(net, io.Discard) })
 		}
 	}
 	if round%2 == 0 {
